@@ -9,12 +9,13 @@ import common as C
 
 PID = "C06"
 DRIVER = [("C06", "TfPwaV.Gen.NLLF", "NLLF.handle")]
-LEAN_TARGETS = ["TfPwaV.Props.C06", "TfPwaV.Gen.NLLF"]
-PROP_MODULES = ["TfPwaV.Props.C06"]
-ALL_MODULES = ["TfPwaV.Proofs.NLL", "TfPwaV.Props.C06", "TfPwaV.Proofs.ScalarR"]
+LEAN_TARGETS = ["TfPwaV.Props.C06", "TfPwaV.Props.C06b", "TfPwaV.Gen.NLLF"]
+PROP_MODULES = ["TfPwaV.Props.C06", "TfPwaV.Props.C06b"]
+ALL_MODULES = ["TfPwaV.Proofs.NLL", "TfPwaV.Proofs.NLLRes", "TfPwaV.Props.C06", "TfPwaV.Props.C06b", "TfPwaV.Proofs.ScalarR"]
 ASSUMPTIONS = [
     "the density / efficiency / background values f(x_i), f(y_j) are inputs of the model (lists of numbers read from the implementation's own amplitude call); the amplitude itself is C01-C05's business",
-    "resolution_size = 1 (the grouping of smeared events is not modelled); legacy inject_mc model, MixLogLikehoodFCN, constr_frac models are not claimed",
+    "resolution_size = r > 1 is modelled for Model/BaseModel (model.py) with batch sizes that are multiples of r (the code asserts that on the Hessian path and fails in tf.reshape on the gradient path otherwise); the resolution_size option of Model_cfit (cfit.py) is not modelled",
+    "MixLogLikehoodFCN is driven with CalAngleData inputs (the dict subclass ConfigLoader's cal_angle returns; it is the only data class of the tree its constructor accepts) and with resolution sizes dividing the default batch 65000 of its inner FCNs; the partial amplitudes A_c of the constr_frac models (Amp.temp_used_res) are inputs read from the implementation (their definition is C03's business); legacy inject_mc (Model_new) is modelled as it is: the data sample's own weights are not read",
     "Float instance vs TensorFlow: agreement to 1e-10 relative to the forward-error scale sum|w_i L_i| + |sum w|(|ln I| + kappa) (kappa = cancellation factors of sum w, sum v, sum v g); cases with kappa > 1e4 are counted as ill-conditioned and skipped",
     "theorems hold over the reals; the exact formula is proved on the region f_i > eps = 1e-6 (clip_log = log there), the region below eps is described by clipLog's own theorems (C2 continuation), not by the defining formula",
     "cached models (cached_int, cached_amp, cfit_cached) are compared using the plain amplitude values amp(data) as inputs: equality of the cached evaluation strategies with amp(data) is C05's claim and is only validated here to 1e-10",
@@ -587,6 +588,13 @@ def correspond(ctx, res):
         "disagreements": nbad + cbad + rbad,
         "simple_cfit_efficiency_key_observed": effkey,
     })
+    # part b: resolution_size > 1, clip region, MixLogLikehoodFCN, constr_frac, inject_mc, gauss_constr via ConfigLoader
+    import c06_ext
+    st = c06_ext.correspond(ctx, res)
+    res.coverage["traces_validated_against_impl"] += st["compared"]
+    res.coverage["evaluations"] += st["compared"] + 3 * st["skipped"]
+    res.coverage["disagreements"] += st["disagreements"]
+    res.coverage["worst_rel_err"] = max(res.coverage["worst_rel_err"], st["worst"])
     for k in (0, 1, len(entries) // 2):
         if k < len(entries):
             res.samples.append({"case": entries[k][0], "impl": entries[k][2], "model": [C.h2f(x) for x in out[k].split()]})
@@ -600,23 +608,26 @@ def run_combine(rng, effkey, sizes):
     params = {"toy_a": float(rng.uniform(0.6, 1.8)), "toy_b": float(rng.uniform(-0.8, 0.8))}
     amp = new_toy_amp(params)
     gauss = {"toy_b": [float(rng.uniform(-0.5, 0.5)), float(rng.uniform(0.05, 0.5))]} if rng.uniform() < 0.5 else {}
+    # ConfigLoader.get_fcn / MultiConfig.get_fcn hand the SAME gauss_constr dictionary to every sub-FCN and to the
+    # CombineFCN: the combined value must count the term once
+    shared = bool(gauss) and rng.uniform() < 0.7
     specs, fcns, obs = [], [], []
     for j in range(k):
         kind = str(rng.choice(TOY_KINDS))
         spec = gen_case(rng, kind, sizes, allow_clip=False)
         spec["params"] = params
-        spec["gauss"] = {}
+        spec["gauss"] = {k_: list(v) for k_, v in gauss.items()} if shared else {}
         _, fcn = build_toy_fcn(spec, amp=amp)
         specs.append(spec)
         fcns.append(fcn)
-        obs.append(observe_inputs(spec, amp, fcn, effkey))
+        obs.append(observe_inputs(dict(spec, gauss={}), amp, fcn, effkey))
     with quiet():
         comb = CombineFCN(fcns=fcns, gauss_constr={k_: tuple(v) for k_, v in gauss.items()})
     impl = eval_fcn(comb)
     cs = []
     for k_, (mean, sigma) in gauss.items():
         cs += [params[k_], mean, sigma]
-    return {"specs": specs, "gauss": gauss, "obs": obs, "impl": impl, "cs": cs, "fcns": fcns}
+    return {"specs": specs, "gauss": gauss, "obs": obs, "impl": impl, "cs": cs, "fcns": fcns, "shared": shared, "comb": comb}
 
 
 # --------------------------------------------------------------------------
@@ -962,10 +973,27 @@ def search(ctx, res):
                     continue
                 tot = "ERR"
             else:
-                tot = sum(xs) + gauss
+                # a sub-FCN built with the shared constraint reports its own copy of the term: take it off, add the term once
+                tot = sum(x - (gauss if ce["shared"] else 0.0) for x in xs) + gauss
             if not (_rel(ce["impl"][path], tot, scale) < STOL):
-                res.fail("combine:%s:sum-of-parts" % path, "CombineFCN %s = %r but the parts sum to %r (kinds %s)" % (path, ce["impl"][path], tot, [o["kind"] for o in ce["obs"]]),
+                res.fail("combine:%s:sum-of-parts" % path, "CombineFCN %s = %r but the parts (without their own copies of the constraint) sum to %r + constraint term once %r = %r (kinds %s, same gauss_constr in every sub-FCN: %s)" % (
+                    path, ce["impl"][path], tot - gauss, gauss, tot, [o["kind"] for o in ce["obs"]], ce["shared"]),
                          {"op": "combine", "specs": ce["specs"], "gauss": ce["gauss"], "path": path})
+        # the gradient CombineFCN.nll_grad returns = sum of the parts' gradients + the constraint gradient once
+        try:
+            with quiet():
+                gsum = sum(np.array(f.get_nll_grad({})[1], dtype="float64") for f in ce["fcns"])
+                gimp = np.array(ce["comb"].nll_grad({})[1], dtype="float64")
+                names = list(ce["comb"].vm.trainable_vars)
+                vals = ce["comb"].get_params()
+            gc = np.array([(vals[n] - ce["gauss"][n][0]) / ce["gauss"][n][1] ** 2 if n in ce["gauss"] else 0.0 for n in names])
+            gs = np.abs(gsum).max() + np.abs(gc).max() + 1e-300
+            stats["combine_grad"] = stats.get("combine_grad", 0) + 1
+            if not np.all(np.abs(gimp - (gsum + gc)) <= 1e-8 * gs):
+                res.fail("combine:nll_grad:gradient-sum-of-parts", "CombineFCN.nll_grad gradient %r but the parts' gradients sum to %r and the constraint gradient (once) is %r" % (list(gimp), list(gsum), list(gc)),
+                         {"op": "combine", "specs": ce["specs"], "gauss": ce["gauss"], "path": "nll_grad"})
+        except Exception as e:  # a crash on a gradient path is reported by the value comparison above
+            stats["combine_grad_errors"] = stats.get("combine_grad_errors", 0) + 1
     tlog("search: combine done")
     # real amplitude through ConfigLoader: the defining formula for every selectable model name
     # (the evaluations of the correspondence run are reused; the oracle here is the numpy formula)
@@ -1013,6 +1041,8 @@ def search(ctx, res):
                     res.fail("%s:%s:batch" % (name, path), "real AmplitudeModel %s %s depends on the batch size: batch=%d gives %r, reference %r" % (name, path, batch, iv[path], vals[0][1]["call"]),
                              {"op": "real-batch", "name": name, "batch": batch, "path": path, "seed": ctx.seed})
     search_clip_log(res, stats)
+    import c06_ext
+    c06_ext.search(ctx, res)
     # observation (not a C06 violation): Model_cfit.nll has no clip_log while its gradient path has
     spec = gen_case(np.random.Generator(np.random.Philox(6)), "cfit", [5], allow_clip=False)
     spec["data"]["f0"][0] = 1e-9
@@ -1031,6 +1061,9 @@ def replay(ctx, payload):
     r = payload.get("replay", payload)
     effkey = observe_eff_key()
     print("efficiency key read by SimpleCFitModel:", effkey)
+    if str(r.get("op", "")).startswith("ext-"):
+        import c06_ext
+        return c06_ext.replay(ctx, r)
     if r.get("op") == "toy":
         spec = r["spec"]
         amp, fcn = build_toy_fcn(spec)
@@ -1041,6 +1074,29 @@ def replay(ctx, payload):
         print("implementation:", impl)
         print("defining formula (numpy):", val, "scale", scale, "regular", regular)
         bad = any(_rel(impl[p], val, scale) >= STOL or isinstance(impl[p], str) for p in PATHS)
+        return 1 if bad else 0
+    if r.get("op") == "combine":
+        from tf_pwa.model.model import CombineFCN
+        specs, gauss = r["specs"], r["gauss"]
+        amp = new_toy_amp(specs[0]["params"])
+        fcns = [build_toy_fcn(spec, amp=amp)[1] for spec in specs]
+        with quiet():
+            comb = CombineFCN(fcns=fcns, gauss_constr={k: tuple(v) for k, v in gauss.items()})
+        impl, parts = eval_fcn(comb), [eval_fcn(f) for f in fcns]
+        g = sum((specs[0]["params"][k] - m) ** 2 / (2 * sg ** 2) for k, (m, sg) in gauss.items())
+        own = g if specs[0]["gauss"] else 0.0
+        print("constraint term:", g, "; every sub-FCN built with the same gauss_constr:", bool(specs[0]["gauss"]))
+        print("CombineFCN:", impl)
+        bad = False
+        for path in PATHS:
+            xs = [p[path] for p in parts]
+            if any(isinstance(x, str) for x in xs) or isinstance(impl[path], str):
+                print(path, "error:", xs, impl[path])
+                bad = True
+                continue
+            tot = sum(x - own for x in xs) + g
+            print("%s: parts without their own constraint copies sum to %r, + constraint once = %r" % (path, tot - g, tot))
+            bad = bad or not abs(impl[path] - tot) <= 1e-9 * (sum(abs(x) for x in xs) + abs(g) + 1)
         return 1 if bad else 0
     if r.get("op") == "real" and r.get("gen"):
         label, o, impl = real_one(r["gen"], effkey)
@@ -1057,7 +1113,7 @@ def replay(ctx, payload):
 
 
 MANIFEST = {
-    "text": "Lean theorems over the reals, for ALL lists of weights (either sign, zeros) and density values: for densities above eps=1e-6 FCN.__call__ equals -alpha[sum W_i ln f_i - (sum W_i) ln(sum v_j g_j / sum v_j)] + Gaussian terms with W = data weights ++ background weights (-w_bkg each) and alpha = sum W / sum W^2 (fcn_call_formula; extended, cfit, cfit_extended, simple variants likewise); clip_log equals ln above eps and its continuation below is the 2nd-order Taylor polynomial: continuous with matching first and second derivative (clipLog_C2); the value is independent of the batch partition for every batch size, dividing or not (list induction); FCN.__call__, nll_grad[0], nll_grad_hessian[0] agree for every batch size including the clip region (fcn_value_paths_agree); invariance under a common rescaling when not extended; CombineFCN = sum of parts; re-applying alpha is the identity. The same definition text runs as Float against FCN for every selectable model class.",
-    "note": "Model = templates/NLL.lean.in over lists of numbers (density / efficiency / background values are inputs read from the implementation's own amplitude call), instantiated at R (proofs) and Float (execution); tie = differential run against FCN.__call__/nll_grad/nll_grad_hessian for default, extended, cfit, cfit_extended, simple, simple_clip, simple_cfit, simple_chi2 with a toy AbsPDF (sizes 1..400, signed weights, batch in {1,3,n-1,n,2n}) and additionally cfit_cached, cached_int, cached_amp with a real AmplitudeModel through ConfigLoader (rel 1e-10 of the forward-error scale; observed worst 2e-15). Search = numpy evaluation of the defining formula, batch variation, rescaling, sum of parts, clip_log C2 spec. Three listed findings (simple_cfit efficiency key, cfit_extended ragged batches, cfit_cached MC efficiency) are reported through search with stable keys; the model follows what the harness observes, so the check is quiet on the fixed tree too. resolution_size>1, inject_mc, mix-likelihood, constr_frac not modelled; Float rounding not verified.",
-    "technique": "Lean 4 proof over the reals (list induction + real analysis of clip_log) of one template instantiated at Float for differential correspondence with the implementation",
+    "text": "Lean theorems over the reals, for ALL lists of weights (either sign, zeros) and density values: for densities above eps=1e-6 FCN.__call__ equals -alpha[sum W_i ln f_i - (sum W_i) ln(sum v_j g_j / sum v_j)] + Gaussian terms with W = data weights ++ background weights (-w_bkg each) and alpha = sum W / sum W^2 (fcn_call_formula; extended, cfit, cfit_extended, simple variants likewise); for ANY densities (zero and negative included) the same holds with ln replaced by clip_log's value, ln f above eps and ln eps + (f-eps)/eps - ((f-eps)/eps)^2/2 at and below eps (nll_formula_clipped), which is the 2nd-order Taylor polynomial: continuous with matching first and second derivative (clipLog_C2); with resolution_size = r the value is -alpha_r[sum_G W_G ln(sum_k w_Gk f_Gk / W_G) - (sum W) int_f(I)], W_G = sum_k w_Gk over r consecutive rows, alpha_r = sum W_G / sum W_G^2, events of total weight 0 contributing 0 (nll_formula_resolution, _clipped); the value is independent of the batch partition for every batch size, dividing the sample or not, and for resolution_size = r for every partition into batches that are multiples of r and every batch size k*r (list induction); FCN.__call__, nll_grad[0], nll_grad_hessian[0] agree for every such batch size including the clip region, r = 1 and r > 1 (fcn_value_paths_agree, fcn_value_paths_agree_resolution); MixLogLikehoodFCN's gradient-path value equals the sum of the per-data-set values of CombineFCN for any number of data sets (mix_eq_combine); constr_frac = -sum w ln f + (sum w) ln I0 + sum_c ((I_c/I0 - mu_c)/sigma_c)^2/2 on every value path for every batch size when there is at least one event (constr_frac_formula, constr_frac_batch_invariant; with no event the batched paths return 0: constr_frac_batch_empty); cfit_constr_frac likewise with the partial integrals taken without efficiency as the code does; legacy inject_mc = -sum W_i clip_log((f_i/I + w_inmc)/(1+w_inmc)) for every batch partition; the Gaussian-constraint term sum (theta-mu)^2/(2 sigma^2) is additive on all three value paths and in CombineFCN (gauss_additive); a simultaneous fit whose sub-FCNs all carry the same configured constraint (as ConfigLoader.get_fcn / MultiConfig.get_fcn build it) reports on all three value paths, for any number of data sets and every batch size, sum_k NLL_k + the constraint term exactly once (combine_gauss_once); invariance under a common rescaling when not extended; CombineFCN = sum of parts; re-applying alpha (per row or per event) is the identity. The same definition text runs as Float against FCN for every selectable model class and option.",
+    "note": "Model = templates/NLL.lean.in over lists of numbers (density / efficiency / background / partial-amplitude values are inputs read from the implementation's own amplitude call), instantiated at R (proofs, Props/C06.lean + Props/C06b.lean) and Float (execution); tie = differential run against FCN.__call__/nll_grad/nll_grad_hessian for default, extended, cfit, cfit_extended, simple, simple_clip, simple_cfit, simple_chi2 with a toy AbsPDF (sizes 1..400, signed weights, batch in {1,3,n-1,n,2n}), cfit_cached, cached_int, cached_amp with a real AmplitudeModel through ConfigLoader, and (part b, harness/c06_ext.py) Model(resolution_size in {2,3,5}) incl. clip region and zero-weight events, MixLogLikehoodFCN of 1..3 data sets, constr_frac / cfit_constr_frac with 0..3 constrained fractions, inject_mc, plus a real AmplitudeModel through ConfigLoader with data.resolution_size, gauss_constr by all three configuration routes (constrains.gauss_constr, particle gauss_constr, m0_sigma + m0_constr; mean and sigma taken from what the harness configured, not from the loader), model: constr_frac, inmc, using_mix_likelihood, and a simultaneous fit of two data sets with constraints 2 sigma off centre (CombineFCN built by ConfigLoader.get_fcn; toy CombineFCN cases likewise give the same gauss_constr to every sub-FCN) (rel 1e-10 of the forward-error scale; observed worst 2e-15). Search = numpy evaluation of the defining formula (reshape-based for resolution, quadratic continuation in the clip region), batch variation over multiples of r, rescaling, sum of parts + constraint once (value and gradient of CombineFCN.nll_grad), clip_log C2 spec. Three listed findings (simple_cfit efficiency key, cfit_extended ragged batches, cfit_cached MC efficiency) are reported through search with stable keys; the model follows what the harness observes, so the check is quiet on the fixed tree too. Validated only, not proved: Float rounding; equality of cached strategies with amp(data) (C05); the partial amplitudes of constr_frac; Model_cfit's own resolution_size option is not modelled; MixLogLikehoodFCN accepts only CalAngleData inputs and resolution sizes dividing 65000 (its inner FCNs ignore the batch argument).",
+    "technique": "Lean 4 proof over the reals (list induction incl. grouping/batching of resolution_size rows + real analysis of clip_log) of one template instantiated at Float for differential correspondence with the implementation",
 }
